@@ -219,39 +219,94 @@ def self_test():
 
 # ---------------------------------------------------------------------------------------------- strategies
 
+# A case = one point of the family's integer / boolean lattice + real parameters. The same builder realises a case from
+# either source of reals: Hypothesis draws (family sub-checks: sampled lattice point, shrinkable reals) or a seeded
+# random.Random (sub-check "lattice": every lattice point of every family, REAL_VARIANTS fixed real draws each, enumerated
+# exhaustively by Hypothesis because the strategy is a bare sampled_from over the finite list).
+
 def fl(lo, hi):
     return st.floats(lo, hi, allow_nan=False, allow_infinity=False).map(lambda x: float(min(hi, max(lo, round(x, 6)))))
 
 
-def lattice(*axes):
-    return st.sampled_from([list(p) for p in itertools.product(*axes)])
+class HypSrc:
+    def __init__(self, draw):
+        self.draw = draw
+
+    def real(self, lo, hi, nice=()):
+        return self.draw(st.one_of(st.sampled_from(list(nice)), fl(lo, hi)) if nice else fl(lo, hi))
+
+    def choice(self, seq):
+        return self.draw(st.sampled_from(list(seq)))
+
+    def integer(self, lo, hi):
+        return self.draw(st.integers(lo, hi))
 
 
-BOOL = (False, True)
-COORD = st.one_of(st.integers(-5, 5).map(float), fl(-10.0, 10.0))
-POINT = st.tuples(COORD, COORD, COORD).map(list)
-CENTER = st.one_of(st.just([0.0, 0.0, 0.0]), POINT)
-RADIUS = st.one_of(st.sampled_from([1.0, 0.5, 2.0, 1.2]), fl(0.05, 20.0))
+class RngSrc:
+    def __init__(self, rnd):
+        self.rnd = rnd
+
+    def real(self, lo, hi, nice=()):
+        if nice and self.rnd.random() < 0.3:
+            return float(self.rnd.choice(list(nice)))
+        return float(min(hi, max(lo, round(self.rnd.uniform(lo, hi), 6))))
+
+    def choice(self, seq):
+        return self.rnd.choice(list(seq))
+
+    def integer(self, lo, hi):
+        return self.rnd.randint(lo, hi)
 
 
-@st.composite
-def distinct_points(draw, n, sep=0.25):
-    """n points, pairwise at least `sep` apart (rejection by deterministic shifting along x)"""
+def coord(src):
+    return src.real(-10.0, 10.0, nice=[float(i) for i in range(-5, 6)])
+
+
+def point(src):
+    return [coord(src), coord(src), coord(src)]
+
+
+def center(src):
+    return [0.0, 0.0, 0.0] if src.choice([0, 1, 2]) == 0 else point(src)
+
+
+def radius(src):
+    return src.real(0.05, 20.0, nice=[1.0, 0.5, 2.0, 1.2])
+
+
+def distinct_points(src, n, sep=0.25):
+    """n points, pairwise at least `sep` apart (deterministic shifting along x)"""
     pts = []
     for _ in range(n):
-        p = draw(POINT)
+        p = point(src)
         while any(math.dist(p, q) < sep for q in pts):
             p = [p[0] + 1.0, p[1], p[2]]
         pts.append(p)
     return pts
 
 
+def product(*axes):
+    return [list(p) for p in itertools.product(*axes)]
+
+
+BOOL = (False, True)
+FAMILIES = {}        # family -> (lattice, builder(params, src) -> case, fn)
+REAL_VARIANTS = 3
+
+
+def family_strategy(name):
+    lat, build, _ = FAMILIES[name]
+
+    @st.composite
+    def strat(draw):
+        return build(draw(st.sampled_from(lat)), HypSrc(draw))
+    return strat()
+
+
 # ================================================================================================ tetrahedron
 
-@st.composite
-def tet_case(draw):
-    return {"gen": "tetrahedron", "P": draw(distinct_points(4)), "volume": draw(st.booleans()),
-            "explicit": draw(st.booleans())}
+def build_tet(p, src):
+    return {"gen": "tetrahedron", "P": distinct_points(src, 4), "volume": p[0], "explicit": p[1]}
 
 
 def fn_tetrahedron(case, ctx):
@@ -286,21 +341,22 @@ HEX_QUADS = [{0, 1, 2, 3}, {0, 1, 5, 4}, {1, 2, 6, 5}, {2, 3, 7, 6}, {3, 0, 4, 7
 UNIT_CUBE = [[-.5, -.5, -.5], [.5, -.5, -.5], [.5, .5, -.5], [-.5, .5, -.5], [-.5, -.5, .5], [.5, -.5, .5], [.5, .5, .5], [-.5, .5, .5]]
 
 
-@st.composite
-def hexa_case(draw):
-    gen, colored, triangulate, volume = draw(st.sampled_from(
-        [["hexahedron", c, t, v] for c in BOOL for t in BOOL for v in BOOL] +
-        [["axis_aligned_cube", c, t, False] for c in BOOL for t in BOOL] +
-        [["hexahedron_4pts", c, False, v] for c in BOOL for v in BOOL]))
+HEXA_LATTICE = ([["hexahedron", c, t, v] for c in BOOL for t in BOOL for v in BOOL] +
+                [["axis_aligned_cube", c, t, False] for c in BOOL for t in BOOL] +
+                [["hexahedron_4pts", c, False, v] for c in BOOL for v in BOOL])
+
+
+def build_hexa(p, src):
+    gen, colored, triangulate, volume = p
     case = {"gen": gen, "colored": colored, "triangulate": triangulate, "volume": volume}
     if gen == "hexahedron":
         # the combinatorial cube of the docstring diagram in an arbitrary (jittered, sheared, moved) configuration
-        o = draw(POINT)
-        s = draw(fl(0.2, 5.0))
-        jit = draw(st.lists(st.tuples(fl(-0.3, 0.3), fl(-0.3, 0.3), fl(-0.3, 0.3)), min_size=8, max_size=8))
+        o = point(src)
+        s = src.real(0.2, 5.0)
+        jit = [[src.real(-0.3, 0.3, nice=[0.0]) for _ in range(3)] for _ in range(8)]
         case["P"] = [[o[k] + s * (UNIT_CUBE[i][k] + jit[i][k]) for k in range(3)] for i in range(8)]
     elif gen == "hexahedron_4pts":
-        case["P"] = draw(distinct_points(4))
+        case["P"] = distinct_points(src, 4)
     return case
 
 
@@ -380,14 +436,13 @@ def fn_hexahedron(case, ctx):
 
 # ================================================================================================ platonic solids
 
-@st.composite
-def platonic_case(draw):
-    gen = draw(st.sampled_from(["octahedron", "icosahedron", "icosahedron", "icosahedron", "dodecahedron"]))
-    case = {"gen": gen}
-    if gen == "icosahedron":
-        case["center"] = draw(CENTER)
-        case["radius"] = draw(RADIUS)
-        case["uv"] = draw(st.sampled_from([False, False, True]))
+PLATONIC_LATTICE = [["octahedron", False], ["dodecahedron", False], ["icosahedron", False], ["icosahedron", True]]
+
+
+def build_platonic(p, src):
+    case = {"gen": p[0]}
+    if p[0] == "icosahedron":
+        case.update(center=center(src), radius=radius(src), uv=p[1])
     return case
 
 
@@ -448,22 +503,21 @@ def fn_platonic(case, ctx):
 AXES = ["x", "y", "z", "-z", "near-z", "random"]
 
 
-@st.composite
-def cylinder_case(draw):
-    N, caps, ax = draw(lattice(range(3, 13), BOOL, AXES))
-    P1 = draw(CENTER)
-    h = draw(st.one_of(st.sampled_from([1.0, 2.0]), fl(0.1, 10.0)))
+def build_cylinder(p, src):
+    N, caps, ax = p
+    P1 = center(src)
+    h = src.real(0.1, 10.0, nice=[1.0, 2.0])
     if ax == "random":
-        d = draw(st.tuples(fl(-1, 1), fl(-1, 1), fl(-1, 1)))
+        d = [src.real(-1, 1), src.real(-1, 1), src.real(-1, 1)]
         n = math.sqrt(sum(x * x for x in d))
         d = [x / n for x in d] if n > 0.1 else [0.6, 0.0, 0.8]
     elif ax == "near-z":
-        e = draw(st.sampled_from([1e-7, 5e-7, 2e-6, 1e-5, 1e-3]))
-        d = [e, draw(st.sampled_from([0.0, e, -e])), draw(st.sampled_from([1.0, -1.0]))]
+        e = src.choice([1e-7, 5e-7, 2e-6, 1e-5, 1e-3])
+        d = [e, src.choice([0.0, e, -e]), src.choice([1.0, -1.0])]
     else:
         d = {"x": [1.0, 0.0, 0.0], "y": [0.0, 1.0, 0.0], "z": [0.0, 0.0, 1.0], "-z": [0.0, 0.0, -1.0]}[ax]
     P2 = [P1[k] + h * d[k] for k in range(3)]
-    return {"gen": "cylinder", "N": N, "fill_caps": caps, "axis": ax, "P1": P1, "P2": P2, "radius": draw(RADIUS)}
+    return {"gen": "cylinder", "N": N, "fill_caps": caps, "axis": ax, "P1": P1, "P2": P2, "radius": radius(src)}
 
 
 def check_tube_geometry(ctx, pre, V, idx, A, B, rad, N, sc, what=""):
@@ -525,11 +579,10 @@ def fn_cylinder(case, ctx):
 
 # ================================================================================================ torus
 
-@st.composite
-def torus_case(draw):
-    a, b, tri = draw(lattice(range(3, 10), range(3, 10), BOOL))
-    R = draw(st.one_of(st.just(1.0), fl(0.5, 10.0)))
-    r = draw(st.one_of(st.just(0.3), fl(0.05, 0.9))) * R
+def build_torus(p, src):
+    a, b, tri = p
+    R = src.real(0.5, 10.0, nice=[1.0])
+    r = src.real(0.05, 0.9, nice=[0.3]) * R
     return {"gen": "torus", "major_segments": a, "minor_segments": b, "triangulate": tri, "major_radius": R, "minor_radius": float(round(r, 6))}
 
 
@@ -560,10 +613,8 @@ def fn_torus(case, ctx):
 
 # ================================================================================================ spheres
 
-@st.composite
-def sphere_uv_case(draw):
-    n_lat, n_long = draw(lattice(range(2, 10), range(3, 10)))
-    return {"gen": "sphere_uv", "n_lat": n_lat, "n_long": n_long, "center": draw(CENTER), "radius": draw(RADIUS)}
+def build_sphere_uv(p, src):
+    return {"gen": "sphere_uv", "n_lat": p[0], "n_long": p[1], "center": center(src), "radius": radius(src)}
 
 
 def fn_sphere_uv(case, ctx):
@@ -595,9 +646,8 @@ def fn_sphere_uv(case, ctx):
     ctx.check(set(ar) <= {3, 4} and ar[3] == 2 * n_long, pre + ":face-arity", f"face sizes {dict(ar)}: expected two fans of {n_long} triangles around the poles and quads elsewhere")
 
 
-@st.composite
-def icosphere_case(draw):
-    return {"gen": "icosphere", "n_refine": draw(st.sampled_from([0, 1, 1, 2, 2, 3])), "center": draw(CENTER), "radius": draw(RADIUS)}
+def build_icosphere(p, src):
+    return {"gen": "icosphere", "n_refine": p[0], "center": center(src), "radius": radius(src)}
 
 
 def fn_icosphere(case, ctx):
@@ -618,12 +668,11 @@ def fn_icosphere(case, ctx):
     ctx.check(float(np.max(np.abs(d - rad))) <= TOL * scale_of(c, rad), pre + ":on-sphere", f"distance to the centre in [{d.min()!r}, {d.max()!r}], requested radius {rad!r}")
 
 
-@st.composite
-def fibonacci_case(draw):
-    n, surf = draw(lattice(range(1, 41), BOOL))
-    if surf and n < 4:
-        n += 3
-    return {"gen": "sphere_fibonacci", "n_pts": n, "build_surface": surf, "radius": draw(RADIUS)}
+FIB_LATTICE = [[n, s] for n in range(1, 41) for s in BOOL if n >= 4 or not s]
+
+
+def build_fibonacci(p, src):
+    return {"gen": "sphere_fibonacci", "n_pts": p[0], "build_surface": p[1], "radius": radius(src)}
 
 
 def fn_fibonacci(case, ctx):
@@ -658,13 +707,14 @@ def fn_fibonacci(case, ctx):
 # ================================================================================================ rings
 
 MAX_DEFECT = 2 * math.pi - 0.01
-DEFECT = st.one_of(st.sampled_from([0.0, 0.1, 0.3, math.pi / 2, math.pi, 5.0, MAX_DEFECT]), fl(0.0, MAX_DEFECT))
 
 
-@st.composite
-def ring_case(draw):
-    N, opn, nc = draw(lattice(range(3, 10), BOOL, (1, 2, 3)))
-    return {"gen": "ring", "N": N, "open": opn, "n_cover": nc, "defect": draw(DEFECT)}
+def defect(src):
+    return src.real(0.0, MAX_DEFECT, nice=[0.0, 0.1, 0.3, math.pi / 2, math.pi, 5.0, MAX_DEFECT])
+
+
+def build_ring(p, src):
+    return {"gen": "ring", "N": p[0], "open": p[1], "n_cover": p[2], "defect": defect(src)}
 
 
 def fn_ring(case, ctx):
@@ -693,10 +743,8 @@ def fn_ring(case, ctx):
               f"corner angles at the centre sum to {s!r}; with defect {defect!r} and n_cover {nc} they must sum to {exp!r} (difference {s - exp:.3e})")
 
 
-@st.composite
-def flat_ring_case(draw):
-    N, nc = draw(lattice(range(1, 10), (1, 2, 3)))
-    return {"gen": "flat_ring", "N": N, "n_cover": nc, "defect": draw(DEFECT)}
+def build_flat_ring(p, src):
+    return {"gen": "flat_ring", "N": p[0], "n_cover": p[1], "defect": defect(src)}
 
 
 def fn_flat_ring(case, ctx):
@@ -734,11 +782,11 @@ def fn_flat_ring(case, ctx):
 
 # ================================================================================================ triangle / quad
 
-@st.composite
-def flat_case(draw):
-    gen, tri = draw(st.sampled_from([["triangle", False], ["quad", False], ["quad", True]]))
-    P = draw(distinct_points(3))
-    return {"gen": gen, "triangulate": tri, "P": P, "explicit": draw(st.booleans())}
+FLAT_LATTICE = [["triangle", False, False], ["quad", False, False], ["quad", False, True], ["quad", True, True]]
+
+
+def build_flat(p, src):
+    return {"gen": p[0], "triangulate": p[1], "P": distinct_points(src, 3), "explicit": p[2]}
 
 
 def fn_flat(case, ctx):
@@ -805,10 +853,8 @@ def check_uvs(ctx, pre, m, V, want):
         check_close(ctx, pre + ":uvs", uv, V[:, :2], 1.0, "uv_coords of a vertex differ from its (x, y) position")
 
 
-@st.composite
-def grid_case(draw):
-    nu, nv, tri, uvs = draw(lattice(range(2, 10), range(2, 10), BOOL, BOOL))
-    return {"gen": "unit_grid", "nu": nu, "nv": nv, "triangulate": tri, "generate_uvs": uvs}
+def build_grid(p, src):
+    return {"gen": "unit_grid", "nu": p[0], "nv": p[1], "triangulate": p[2], "generate_uvs": p[3]}
 
 
 def fn_unit_grid(case, ctx):
@@ -831,12 +877,8 @@ def fn_unit_grid(case, ctx):
     check_uvs(ctx, pre, m, V, uvs)
 
 
-@st.composite
-def unit_triangle_case(draw):
-    nu, nv, uvs = draw(lattice(range(2, 10), range(2, 10), BOOL))
-    if draw(st.booleans()):
-        nv = nu       # half of the budget on the diagonal (the only documented / tested configuration)
-    return {"gen": "unit_triangle", "nu": nu, "nv": nv, "generate_uvs": uvs}
+def build_unit_triangle(p, src):
+    return {"gen": "unit_triangle", "nu": p[0], "nv": p[1], "generate_uvs": p[2]}
 
 
 def fn_unit_triangle(case, ctx):
@@ -869,19 +911,22 @@ def fn_unit_triangle(case, ctx):
 
 # ================================================================================================ polylines
 
-@st.composite
-def polyline_case(draw):
-    gen = draw(st.sampled_from(["chain_of_vertices", "vector_field"]))
+POLYLINE_LATTICE = ([["chain_of_vertices", n, loop, K, ex] for n in range(1, 9) for loop in BOOL for K in (2, 3) for ex in BOOL
+                     if (n >= 3 or not loop) and (ex or not loop)] +
+                    [["vector_field", n, K, dflt] for n in range(1, 7) for K in (1, 2, 3) for dflt in BOOL])
+
+
+def build_polyline(p, src):
+    gen = p[0]
     if gen == "chain_of_vertices":
-        n, loop, K = draw(lattice(range(1, 9), BOOL, (2, 3)))
-        if loop and n < 3:
-            n += 2
-        pts = draw(st.lists(st.lists(COORD, min_size=K, max_size=K), min_size=n, max_size=n))
-        return {"gen": gen, "loop": loop, "dim": K, "points": pts, "explicit": draw(st.booleans())}
-    n, K = draw(lattice(range(1, 7), (1, 2, 3)))
-    org = draw(st.lists(st.lists(COORD, min_size=K, max_size=K), min_size=n, max_size=n))
-    vecs = draw(st.lists(st.lists(COORD, min_size=K, max_size=K), min_size=n, max_size=n))
-    return {"gen": gen, "dim": K, "origins": org, "vectors": vecs, "length_mult": draw(st.one_of(st.none(), st.sampled_from([1.0, 0.5, -2.0, 0.0]), fl(-5, 5)))}
+        _, n, loop, K, ex = p
+        pts = [[coord(src) for _ in range(K)] for _ in range(n)]
+        return {"gen": gen, "loop": loop, "dim": K, "points": pts, "explicit": ex}
+    _, n, K, dflt = p
+    org = [[coord(src) for _ in range(K)] for _ in range(n)]
+    vecs = [[coord(src) for _ in range(K)] for _ in range(n)]
+    return {"gen": gen, "dim": K, "origins": org, "vectors": vecs,
+            "length_mult": None if dflt else src.real(-5.0, 5.0, nice=[1.0, 0.5, -2.0, 0.0])}
 
 
 def pad3(A):
@@ -938,16 +983,21 @@ def fn_polylines(case, ctx):
 
 # ================================================================================================ transformations
 
-@st.composite
-def transform_case(draw):
-    gen = draw(st.sampled_from(["spherify_vertices", "cylindrify_edges"]))
+TRANSFORM_LATTICE = ([["spherify_vertices", n, k, form, dflt] for n in range(1, 5) for k in (0, 1, 2)
+                      for form in ("pointcloud", "array", "polyline") for dflt in BOOL] +
+                     [["cylindrify_edges", shape, N, dflt] for shape in ("path", "cycle", "star", "triangle_mesh", "segments")
+                      for N in range(3, 9) for dflt in BOOL])
+
+
+def build_transform(p, src):
+    gen = p[0]
     if gen == "spherify_vertices":
-        n, k, form = draw(lattice(range(1, 5), (0, 1, 1, 2), ("pointcloud", "array", "polyline")))
-        return {"gen": gen, "points": draw(distinct_points(n, sep=0.5)), "n_subdiv": k, "form": form,
-                "radius": draw(st.one_of(st.none(), fl(0.01, 3.0)))}
-    shape, N = draw(lattice(("path", "cycle", "star", "triangle_mesh", "segments"), range(3, 9)))
-    n = draw(st.integers(3, 6))
-    pts = draw(distinct_points(n, sep=0.5))
+        _, n, k, form, dflt = p
+        return {"gen": gen, "points": distinct_points(src, n, sep=0.5), "n_subdiv": k, "form": form,
+                "radius": None if dflt else src.real(0.01, 3.0)}
+    _, shape, N, dflt = p
+    n = src.integer(3, 6)
+    pts = distinct_points(src, n, sep=0.5)
     if shape == "path":
         E = [[i, i + 1] for i in range(n - 1)]
     elif shape == "cycle":
@@ -958,7 +1008,7 @@ def transform_case(draw):
         E = [[2 * i, 2 * i + 1] for i in range(n // 2)]
     else:
         E = []
-    return {"gen": gen, "shape": shape, "points": pts, "edges": E, "N": N, "radius": draw(st.one_of(st.none(), fl(0.01, 0.5)))}
+    return {"gen": gen, "shape": shape, "points": pts, "edges": E, "N": N, "radius": None if dflt else src.real(0.01, 0.5)}
 
 
 def match_components(ctx, pre, V, ref, n_expected, fits, what):
@@ -1074,7 +1124,9 @@ def dual_case(draw):
     tri = draw(st.booleans())
     s = draw(G.surfaces(max_faces=60, bases=CLOSED_BASES, triangulated=tri, max_ops=4, jitter_amp=0.03).filter(dual_admissible))
     is_tri = all(len(f) == 3 for f in s["F"])
-    mode = draw(st.sampled_from([None, "barycenter", "Barycenter", "circumcenter"] if is_tri else [None, "barycenter", "BARYCENTER"]))
+    # circumcentres are only defined for non-degenerate triangles
+    circ_ok = is_tri and G.min_angle_deg(s["V"], s["F"]) >= 10.0
+    mode = draw(st.sampled_from([None, "barycenter", "Barycenter", "circumcenter", "circumcenter"] if circ_ok else [None, "barycenter", "BARYCENTER"]))
     return {"gen": "dual_mesh", "V": s["V"], "F": s["F"], "tags": s["tags"], "mode": mode}
 
 
@@ -1124,23 +1176,60 @@ def fn_dual(case, ctx):
 
 # ================================================================================================ registration
 
-SUBCHECKS = [
-    SubCheck("tetrahedron", tet_case(), fn_tetrahedron, quick=80, thorough=100),
-    SubCheck("hexahedra", hexa_case(), fn_hexahedron, quick=200, thorough=200),
-    SubCheck("platonic", platonic_case(), fn_platonic, quick=100, thorough=150),
-    SubCheck("cylinder", cylinder_case(), fn_cylinder, quick=300, thorough=300),
-    SubCheck("torus", torus_case(), fn_torus, quick=300, thorough=300),
-    SubCheck("sphere_uv", sphere_uv_case(), fn_sphere_uv, quick=200, thorough=250),
-    SubCheck("icosphere", icosphere_case(), fn_icosphere, quick=50, thorough=60),
-    SubCheck("sphere_fibonacci", fibonacci_case(), fn_fibonacci, quick=200, thorough=250),
-    SubCheck("ring", ring_case(), fn_ring, quick=250, thorough=300),
-    SubCheck("flat_ring", flat_ring_case(), fn_flat_ring, quick=150, thorough=200),
-    SubCheck("triangle_quad", flat_case(), fn_flat, quick=80, thorough=100),
-    SubCheck("unit_grid", grid_case(), fn_unit_grid, quick=400, thorough=400),
-    SubCheck("unit_triangle", unit_triangle_case(), fn_unit_triangle, quick=250, thorough=300),
-    SubCheck("polylines", polyline_case(), fn_polylines, quick=200, thorough=250),
-    SubCheck("transformations", transform_case(), fn_transformations, quick=150, thorough=200),
+FAMILIES.update({
+    "tetrahedron": (product(BOOL, BOOL), build_tet, fn_tetrahedron),
+    "hexahedra": (HEXA_LATTICE, build_hexa, fn_hexahedron),
+    "platonic": (PLATONIC_LATTICE, build_platonic, fn_platonic),
+    "cylinder": (product(range(3, 13), BOOL, AXES), build_cylinder, fn_cylinder),
+    "torus": (product(range(3, 10), range(3, 10), BOOL), build_torus, fn_torus),
+    "sphere_uv": (product(range(2, 10), range(3, 10)), build_sphere_uv, fn_sphere_uv),
+    "icosphere": (product(range(0, 4)), build_icosphere, fn_icosphere),
+    "sphere_fibonacci": (FIB_LATTICE, build_fibonacci, fn_fibonacci),
+    "ring": (product(range(3, 10), BOOL, (1, 2, 3)), build_ring, fn_ring),
+    "flat_ring": (product(range(1, 10), (1, 2, 3)), build_flat_ring, fn_flat_ring),
+    "triangle_quad": (FLAT_LATTICE, build_flat, fn_flat),
+    "unit_grid": (product(range(2, 10), range(2, 10), BOOL, BOOL), build_grid, fn_unit_grid),
+    "unit_triangle": (product(range(2, 10), range(2, 10), BOOL), build_unit_triangle, fn_unit_triangle),
+    "polylines": (POLYLINE_LATTICE, build_polyline, fn_polylines),
+    "transformations": (TRANSFORM_LATTICE, build_transform, fn_transformations),
+})
+
+
+def full_lattice():
+    """every lattice point of every family x REAL_VARIANTS deterministic draws of the real parameters (realised cases)"""
+    import random
+    import zlib
+    out, seen = [], set()
+    for name in sorted(FAMILIES):
+        lat, build, _ = FAMILIES[name]
+        for p in lat:
+            for k in range(REAL_VARIANTS):
+                case = build(p, RngSrc(random.Random(zlib.crc32(repr((name, p, k)).encode()))))
+                case["family"] = name
+                js = repr(case)
+                if js not in seen:          # families without real parameters give one case per lattice point
+                    seen.add(js)
+                    out.append(case)
+    return out
+
+
+LATTICE_CASES = full_lattice()
+
+
+def fn_lattice(case, ctx):
+    ctx.label("family=" + case["family"])
+    FAMILIES[case["family"]][2](case, ctx)
+
+
+_Q = {"tetrahedron": 60, "hexahedra": 160, "platonic": 60, "cylinder": 240, "torus": 240, "sphere_uv": 200, "icosphere": 40,
+      "sphere_fibonacci": 160, "ring": 200, "flat_ring": 120, "triangle_quad": 60, "unit_grid": 320, "unit_triangle": 200,
+      "polylines": 160, "transformations": 120}
+
+SUBCHECKS = [SubCheck(name, family_strategy(name), FAMILIES[name][2], quick=_Q[name], thorough=_Q[name]) for name in _Q] + [
     SubCheck("dual_mesh", dual_case(), fn_dual, quick=300, thorough=500),
+    # bare sampled_from over a finite list: Hypothesis never repeats a choice sequence, so a budget >= len(LATTICE_CASES)
+    # enumerates the whole lattice in every thorough shard (it stops by itself once the list is exhausted)
+    SubCheck("lattice", st.sampled_from(LATTICE_CASES), fn_lattice, quick=len(LATTICE_CASES), thorough=len(LATTICE_CASES) + 50),
 ]
 
 
